@@ -1,16 +1,21 @@
-"""Whole sync policy calls racing in threads on shared components (one Budget, one CircuitBreaker,
-optionally one policy object).
+"""Whole policy calls overlapping on shared components (one Budget, one CircuitBreaker, one strategy object,
+optionally one policy object): sync calls racing in threads, or async calls interleaved on one loop.
 
-Per-call state of the engine is private to a call; what can differ between schedules is the order
-of accesses to the shared objects.  Pre-emption is therefore injected where those accesses happen
-and where the engine calls out: at every lock operation of the shared Budget / CircuitBreaker
-(scheduler-aware lock, rv.sched) and at every harness callback (operation, classifiers, strategy,
-sleeper, hooks).  Schedules are enumerated depth-first under a pre-emption bound, then sampled by
-seeded random walks; each is identified by its choice sequence.
+Per-call state of the engine is private to a call; what can differ between schedules is the order of accesses to the
+shared objects.  Pre-emption is therefore injected where those accesses happen and where the engine calls out:
 
-Nothing here predicts the outcome of a race: the oracles are per-call statements that must hold
-in every schedule (each call's own event stream, its own tokens, its own breaker record, its own
-objects).
+  level "callbacks"   every lock operation of the shared Budget / CircuitBreaker / AdaptiveStrategy (scheduler-aware
+                      lock, rv.sched) and every harness callback (operation, classifiers, strategy, sleeper, hooks);
+  level "components"  the same plus every source line inside budget.py / circuit.py / strategies.py: a thread can be
+                      parked INSIDE a component's critical section while another one arrives;
+  level "lines"       every source line of the package (first-use races on a fresh policy object); explored with
+                      pre-emption bound 1, i.e. "park call A at line k, run call B to completion, resume A" for every k;
+  mode "async"        the calls are coroutines of AsyncRetry / AsyncPolicy driven by hand; a switch is possible at every
+                      suspension point (operation, sleeper) - coroutines cannot be pre-empted elsewhere.
+
+Schedules are enumerated depth-first under a pre-emption bound, then sampled by seeded random walks; each is identified
+by its choice sequence.  Nothing here predicts the outcome of a race: the judges are per-call statements that must hold
+in every schedule (each call's own event stream, its own tokens, its own breaker record, its own objects, its own deadline).
 """
 
 from __future__ import annotations
@@ -21,6 +26,8 @@ from .models import BudgetModel
 env.import_redress()
 
 from redress import (  # noqa: E402
+    AsyncPolicy,
+    AsyncRetry,
     Budget,
     CircuitBreaker,
     ErrorClass,
@@ -28,11 +35,14 @@ from redress import (  # noqa: E402
     Retry,
     RetryExhaustedError,
 )
+from redress.strategies import adaptive  # noqa: E402
 
 EC = ErrorClass
 T0 = 1024.0
 TERMINALS = {"success", "permanent_fail", "deadline_exceeded", "max_attempts_exceeded", "max_unknown_attempts_exceeded", "no_strategy_configured", "budget_exhausted", "scheduled", "aborted"}
 BREAKER_EVENTS = {"circuit_opened", "circuit_half_open", "circuit_closed", "circuit_rejected"}
+CLASS_DELAY = {"RATE_LIMIT": 7.0, "SERVER_ERROR": 5.0}  # per-class strategies of the "per-class" table; anything else: the default
+DEFAULT_DELAY = 3.0
 
 
 class TExc(Exception):
@@ -57,18 +67,25 @@ class TVal:
         return f"Val(T{self.tid}@{self.idx})"
 
 
+_CUR = [None]  # async mode: index of the call whose coroutine is being resumed
+
+
+def who():
+    t = sched.me()
+    if t is not None:
+        return t
+    return -1 if _CUR[0] is None else _CUR[0]
+
+
 class Bundle:
-    """The shared objects of one schedule plus the global log (tid, kind, ...)."""
+    """The shared objects of one schedule plus the global log (call index, kind, ...)."""
 
     def __init__(self, spec, world):
         self.spec = spec
         self.world = world
         self.log = []
+        self.is_async = spec.get("mode") == "async"
         me = self
-
-        def who():
-            t = sched.me()
-            return -1 if t is None else t
 
         class SBudget(Budget):
             def consume(s, cost=1):
@@ -118,75 +135,91 @@ class Bundle:
                     CircuitBreaker.record_failure(self.breaker, EC.TRANSIENT)
                 world.t += br["recovery"] + 1.0
         n = len(spec["threads"])
+        table = spec.get("strategy", "fixed")
+        skw = dict(strategy=self.strategy)
+        self.adaptive = None
+        if table == "adaptive":
+            # ONE adaptive() object handed to every call: its outcome window is shared state behind its own lock
+            self.adaptive = adaptive(self.strategy, window_s=60.0, target_success=0.5, min_multiplier=1.0, max_multiplier=4.0)
+            lk = sched.new_lock()
+            if lk is not None and hasattr(self.adaptive, "_lock"):
+                self.adaptive._lock = lk  # its own lock is a dataclass default_factory bound to the real threading.Lock
+            skw = dict(strategy=self.adaptive)
+        elif table == "per-class":
+            skw = dict(strategy=self.mk_class_strategy(None), strategies={EC[k]: self.mk_class_strategy(k) for k in CLASS_DELAY})
         self.policies = []
         shared = None
+        R, P = (AsyncRetry, AsyncPolicy) if self.is_async else (Retry, Policy)
         for i in range(n):
             if spec.get("shared_policy") and shared is not None:
                 self.policies.append(shared)
                 continue
-            r = Retry(
+            r = R(
                 classifier=self.classifier,
                 result_classifier=self.result_classifier,
-                strategy=self.strategy,
                 budget=self.budget,
-                deadline_s=100000.0,
+                deadline_s=spec.get("deadline_s", 100000.0),
                 max_attempts=spec["max_attempts"],
                 max_unknown_attempts=None,
                 per_class_max_attempts={EC[k]: v for k, v in (spec.get("per_class") or {}).items()},
+                **skw,
             )
-            pol = Policy(retry=r, circuit_breaker=self.breaker) if self.breaker is not None or spec.get("wrap") else r
+            pol = P(retry=r, circuit_breaker=self.breaker) if self.breaker is not None or spec.get("wrap") else r
             shared = pol
             self.policies.append(pol)
         self.finals = [None] * n
         self.nops = [0] * n
+        self.starts = [None] * n
+        self.after = None  # verdict of the sequential continuation (breaker not wedged)
 
-    # shared (policy-level) callbacks: the acting thread is the current one
+    # shared (policy-level) callbacks: the acting call is the current one
     def classifier(self, e):
-        t = sched.me()
-        self.log.append((t, "classify", getattr(e, "tid", None), getattr(e, "idx", None), getattr(e, "rv_klass", "UNKNOWN")))
+        self.log.append((who(), "classify", getattr(e, "tid", None), getattr(e, "idx", None), getattr(e, "rv_klass", "UNKNOWN")))
         sched.point()
         return EC[getattr(e, "rv_klass", "UNKNOWN")]
 
     def result_classifier(self, r):
         if isinstance(r, TRes):
-            t = sched.me()
-            self.log.append((t, "rclassify", r.tid, r.idx, r.rv_klass))
+            self.log.append((who(), "rclassify", r.tid, r.idx, r.rv_klass))
             sched.point()
             return EC[r.rv_klass]
         return None
 
     def strategy(self, ctx):
-        self.log.append((sched.me(), "strategy", ctx.attempt, ctx.klass.name))
+        self.log.append((who(), "strategy", ctx.attempt, ctx.klass.name))
         sched.point()
         return self.spec.get("delay", 0.25)
 
-    def run_call(self, i):
-        th = self.spec["threads"][i]
-        pol = self.policies[i]
-        log = self.log
-        world = self.world
+    def mk_class_strategy(self, klass):
+        def st(ctx):
+            self.log.append((who(), "strategy", ctx.attempt, ctx.klass.name, klass or "default"))
+            sched.point()
+            return CLASS_DELAY.get(klass, DEFAULT_DELAY)
+
+        return st
+
+    def _script(self, i, th, k):
         outs = th["outcomes"]
+        o = outs[k % len(outs)]
+        if o[0] == "ok":
+            return TVal(i, k)
+        if o[0] == "res":
+            return TRes(i, k, o[1])
+        if o[0] == "abort":
+            from redress import AbortRetryError
 
-        def op():
-            k = self.nops[i]
-            self.nops[i] = k + 1
-            log.append((i, "op", k + 1, world.t))
-            sched.point()
-            world.t += th.get("dur", 0.0)
-            o = outs[k % len(outs)]
-            if o[0] == "ok":
-                return TVal(i, k)
-            if o[0] == "res":
-                return TRes(i, k, o[1])
-            raise TExc(i, k, o[1])
+            raise AbortRetryError()  # cooperative abort raised by the operation: a cancel-type ending
+        raise TExc(i, k, o[1])
 
-        def sleeper(s):
-            log.append((i, "sleep", s, world.t))
-            sched.point()
-            world.t += s
+    def _dur(self, th, k):
+        d = th.get("dur", 0.0)
+        return d[k % len(d)] if isinstance(d, list) else d
+
+    def _hooks(self, i, th, suspend=None):
+        log, world = self.log, self.world
 
         def on_metric(event, attempt, sleep_s, tags):
-            log.append((i, "event", event, attempt, sleep_s, world.t))
+            log.append((i, "event", event, attempt, sleep_s, world.t, dict(tags)))
             sched.point()
 
         def astart(ctx):
@@ -197,26 +230,172 @@ class Bundle:
             log.append((i, "aend", ctx.attempt, ctx.decision.value if ctx.decision is not None else None))
             sched.point()
 
-        kw = dict(on_metric=on_metric, sleeper=sleeper)
+        kw = dict(on_metric=on_metric)
         if th.get("hooks", True):
             kw["on_attempt_start"] = astart
             kw["on_attempt_end"] = aend
+        return kw
+
+    def run_call(self, i):
+        """Sync: the whole call of thread i."""
+        th = self.spec["threads"][i]
+        pol = self.policies[i]
+        log, world = self.log, self.world
+        self.starts[i] = world.t
+
+        def op():
+            k = self.nops[i]
+            self.nops[i] = k + 1
+            log.append((i, "op", k + 1, world.t))
+            sched.point()
+            world.t += self._dur(th, k)
+            nest = th.get("nested")
+            if nest and nest["at"] == k:
+                # the operation itself uses the same policy object for a sub-step (a call nested in a call)
+                log.append((i, "nested-begin", world.t))
+                try:
+                    pol.call(lambda: (_ for _ in ()).throw(TExc(-2, 0, "TRANSIENT")) if nest.get("fails") else "sub-ok", sleeper=lambda s: None)
+                except BaseException as x:  # noqa: BLE001
+                    if isinstance(x, sched.Deadlock):
+                        raise
+                log.append((i, "nested-end", world.t))
+            return self._script(i, th, k)
+
+        def sleeper(s):
+            log.append((i, "sleep", s, world.t))
+            sched.point()
+            world.t += s
+
+        kw = dict(sleeper=sleeper, **self._hooks(i, th))
         try:
             if th.get("entry", "call") == "execute":
-                r = pol.execute(op, **kw)
-                self.finals[i] = ("outcome", r)
+                self.finals[i] = ("outcome", pol.execute(op, **kw))
             else:
-                r = pol.call(op, **kw)
-                self.finals[i] = ("return", r)
+                self.finals[i] = ("return", pol.call(op, **kw))
         except BaseException as x:  # noqa: BLE001 - the harness observes everything
             if isinstance(x, sched.Deadlock):
                 raise
             self.finals[i] = ("raise", x)
         return i
 
+    def coro(self, i):
+        """Async: the coroutine of call i (started lazily by the driver)."""
+        th = self.spec["threads"][i]
+        pol = self.policies[i]
+        log, world = self.log, self.world
+
+        async def aop():
+            k = self.nops[i]
+            self.nops[i] = k + 1
+            log.append((i, "op", k + 1, world.t))
+            await env.Suspend("op")
+            _CUR[0] = i
+            world.t += self._dur(th, k)
+            return self._script(i, th, k)
+
+        async def asl(s):
+            log.append((i, "sleep", s, world.t))
+            await env.Suspend("sleep")
+            _CUR[0] = i
+            world.t += s
+
+        kw = dict(sleeper=asl, **self._hooks(i, th))
+
+        async def run():
+            self.starts[i] = world.t
+            try:
+                if th.get("entry", "call") == "execute":
+                    self.finals[i] = ("outcome", await pol.execute(aop, **kw))
+                else:
+                    self.finals[i] = ("return", await pol.call(aop, **kw))
+            except BaseException as x:  # noqa: BLE001
+                self.finals[i] = ("raise", x)
+
+        return run()
+
+    def continuation(self):
+        """Sequential, after every call has ended: a breaker nobody is using any more must recover."""
+        br = self.spec.get("breaker")
+        if not br or self.breaker is None:
+            return
+        w = self.world
+        w.t += br["recovery"] + 100.0
+        d = CircuitBreaker.allow(self.breaker)
+        if not d.allowed:
+            self.after = f"every call has ended; recovery_timeout_s + 100 s later allow() still rejects (state {d.state.value}): breaker wedged"
+            return
+        if d.state.value == "half_open":
+            CircuitBreaker.record_success(self.breaker)
+        if CircuitBreaker.allow(self.breaker).state.value != "closed":
+            self.after = "after the continuation probe succeeded the breaker is not closed"
+            return
+        CircuitBreaker.record_success(self.breaker)
+        for _ in range(br["threshold"]):
+            CircuitBreaker.record_failure(self.breaker, EC.TRANSIENT)
+        if CircuitBreaker.allow(self.breaker).allowed:
+            return  # did not open: C06's business
+        w.t += br["recovery"] + 1.0
+        d2 = CircuitBreaker.allow(self.breaker)
+        if not d2.allowed:
+            self.after = f"one more outage driven directly after every call had ended: allow() after the recovery timeout rejects (state {d2.state.value}) although nothing is in flight"
+
+
+class _Trace:
+    """sched-compatible record of an async schedule (so next_prefix / hashing work alike)."""
+
+    def __init__(self):
+        self.trace = []
+        self.deadlock = False
+        self.contention = 0
+        self.line_events = 0
+
+
+def run_async(spec, prefix=(), rng=None):
+    """k coroutines on one policy / budget / breaker; at every step the driver picks which suspended one to resume."""
+    world = env.World()
+    st = _Trace()
+    errors = []
+    with env.active(world):
+        b = Bundle(spec, world)
+        n = len(spec["threads"])
+        live = {}
+        started = 0
+        cur = None
+        while True:
+            opts = sorted(live) + ([started] if started < n else [])  # resume a suspended call, or start the next one
+            if not opts:
+                break
+            k = len(st.trace)
+            if k < len(prefix) and prefix[k] in opts:
+                c = prefix[k]
+            elif rng is not None:
+                c = cur if (cur in opts and rng.random() >= 0.3) else rng.choice(opts)
+            else:
+                c = cur if cur in opts else opts[0]
+            pre = (cur in opts) and c != cur
+            st.trace.append((tuple(opts), c, pre, cur))
+            cur = c
+            if c == started and c not in live:
+                live[c] = b.coro(c)
+                started += 1
+            _CUR[0] = c
+            try:
+                live[c].send(None)
+            except StopIteration:
+                del live[c]
+            except BaseException as x:  # noqa: BLE001
+                errors.append((c, repr(x)))
+                del live[c]
+        _CUR[0] = None
+        b.continuation()
+    return {"results": None, "obj": b, "bundle": b, "sched": st, "completed": True, "errors": errors, "lock_how": "n/a", "locks": 0}
+
 
 def run_schedule(spec, prefix=(), rng=None):
+    if spec.get("mode") == "async":
+        return run_async(spec, prefix, rng)
     world = env.World()
+    level = spec.get("level", "callbacks")
     with env.active(world):
         holder = {}
 
@@ -225,12 +404,17 @@ def run_schedule(spec, prefix=(), rng=None):
             return holder["b"]
 
         programs = [[(lambda i: (lambda b: b.run_call(i)))(i)] for i in range(len(spec["threads"]))]
-        r = sched.run_schedule(make, programs, prefix=prefix, rng=rng, line_level=False, preempt_p=0.15)
+        r = sched.run_schedule(make, programs, prefix=prefix, rng=rng, line_level={"callbacks": False, "components": "components", "lines": True}[level],
+                               preempt_p=0.15 if level == "callbacks" else 0.04, yield_on_release=False)
+        if r["completed"] and not r["sched"].deadlock:
+            holder["b"].continuation()
+    if level != "callbacks":
+        sched.LINE_FILES[0] = None
     r["bundle"] = holder["b"]
     return r
 
 
-# ---------------------------------------------------------------------------------------- oracles
+# ---------------------------------------------------------------------------------------- judges
 def per_thread(bundle):
     by = {}
     for ev in bundle.log:
@@ -239,23 +423,32 @@ def per_thread(bundle):
 
 
 def judge_events(bundle):
-    """C14 per call: the call's own event stream is retry* followed by exactly one terminal event."""
+    """C14 per call: the call's own event stream is retry* followed by exactly one terminal event; breaker events carry the
+    state decided for THIS call."""
     by = per_thread(bundle)
     for i in range(len(bundle.spec["threads"])):
         evs = [e for e in by.get(i, []) if e[1] == "event" and e[2] not in BREAKER_EVENTS]
         names = [e[2] for e in evs]
         admitted = [e for e in by.get(i, []) if e[1] == "br.allow"]
+        for e in by.get(i, []):
+            if e[1] == "event" and e[2] in ("circuit_rejected", "circuit_half_open") and admitted:
+                want = admitted[0][3]
+                got = e[6].get("state")
+                if got is not None and got != want:
+                    return ("thread-race:breaker-event-state-is-not-the-decision's", f"call {i}: allow() decided state '{want}' for this call but its {e[2]} event says state='{got}'")
         if admitted and not admitted[0][2]:
             continue  # rejected by the breaker: C07's business
+        if bundle.finals[i] is not None and bundle.finals[i][0] == "raise" and not isinstance(bundle.finals[i][1], (TExc, RetryExhaustedError)):
+            continue  # ended abnormally (judge "escape" reports it)
         terms = [n for n in names if n in TERMINALS]
         if len(terms) != 1 or names[-1] not in TERMINALS or any(n != "retry" and n not in TERMINALS for n in names):
-            return ("thread-race:event-grammar", f"call of thread {i}: event stream {names} is not retry* followed by exactly one terminal event (final {describe_final(bundle.finals[i])})")
+            return ("thread-race:event-grammar", f"call {i}: event stream {names} is not retry* followed by exactly one terminal event (final {describe_final(bundle.finals[i])})")
         k = 0
         for e in evs:
             if e[2] == "retry":
                 k += 1
                 if e[3] != k:
-                    return ("thread-race:retry-numbering", f"call of thread {i}: {k}-th retry event carries attempt={e[3]}")
+                    return ("thread-race:retry-numbering", f"call {i}: {k}-th retry event carries attempt={e[3]}")
     return None
 
 
@@ -283,7 +476,7 @@ def judge_tokens(bundle):
             want = model.consume(t, cost)
             if ok not in want:
                 lo, hi = model.live(t)
-                return ("thread-race:over-grant" if ok else "thread-race:refused-although-capacity", f"call of thread {i}: consume({cost}) -> {ok} at t={t - T0}; {lo}..{hi} of {model.max} tokens live")
+                return ("thread-race:over-grant" if ok else "thread-race:refused-although-capacity", f"call {i}: consume({cost}) -> {ok} at t={t - T0}; {lo}..{hi} of {model.max} tokens live")
             model.commit(t, cost, ok)
             if i in segs:
                 if ok:
@@ -297,48 +490,56 @@ def judge_tokens(bundle):
                 segs[i]["exhausted"] += 1
                 if model.consume(e[5], 1) == {True}:
                     lo, hi = model.live(e[5])
-                    return ("thread-race:exhausted-although-capacity", f"call of thread {i} attempt {segs[i]['attempt']}: budget_exhausted reported at t={e[5] - T0} while only {hi} of {model.max} tokens were live")
+                    return ("thread-race:exhausted-although-capacity", f"call {i} attempt {segs[i]['attempt']}: budget_exhausted reported at t={e[5] - T0} while only {hi} of {model.max} tokens were live")
     for s_ in allsegs:
         i = s_["tid"]
         if s_["next_op"] and s_["grants"] != 1:
-            return ("thread-race:retry-without-token", f"call of thread {i}: attempt {s_['attempt']} was followed by another attempt with {s_['grants']} token(s) granted to this call in between")
+            return ("thread-race:retry-without-token", f"call {i}: attempt {s_['attempt']} was followed by another attempt with {s_['grants']} token(s) granted to this call in between")
         if s_["grants"] != s_["retry"]:
-            return ("thread-race:token-retry-mismatch", f"call of thread {i} attempt {s_['attempt']}: {s_['grants']} token(s) granted but {s_['retry']} retry event(s)")
+            return ("thread-race:token-retry-mismatch", f"call {i} attempt {s_['attempt']}: {s_['grants']} token(s) granted but {s_['retry']} retry event(s)")
         if s_["refused"] and not s_["exhausted"]:
-            return ("thread-race:refusal-not-reported", f"call of thread {i} attempt {s_['attempt']}: consume() refused but no budget_exhausted event (final {describe_final(bundle.finals[i])})")
+            return ("thread-race:refusal-not-reported", f"call {i} attempt {s_['attempt']}: consume() refused but no budget_exhausted event (final {describe_final(bundle.finals[i])})")
     return None
 
 
 def last_failure_class(bundle, i):
     k = None
     for e in bundle.log:
-        if e[0] == i and e[1] in ("classify", "rclassify"):
+        if e[0] == i and e[1] in ("classify", "rclassify") and e[2] == i:
             k = e[4]
     return k
 
 
 def judge_breaker(bundle):
-    """C09 per call: an admitted call tells the breaker exactly once, success or the class of ITS OWN final failure."""
+    """C09 per call: an admitted call tells the breaker exactly once, success or the class of ITS OWN final failure; a rejected
+    call tells it nothing."""
     if bundle.breaker is None:
         return None
     by = per_thread(bundle)
     for i in range(len(bundle.spec["threads"])):
         evs = by.get(i, [])
         allows = [e for e in evs if e[1] == "br.allow"]
+        recs = [e for e in evs if e[1] in ("br.success", "br.failure", "br.cancel")]
+        if allows and not allows[0][2] and recs:
+            return ("thread-race:rejected-call-reported", f"call {i} was rejected by the breaker, yet it reported {[r[1:3] for r in recs]}")
         if not allows or not allows[0][2]:
             continue
-        recs = [e for e in evs if e[1] in ("br.success", "br.failure", "br.cancel")]
         if len(recs) != 1:
-            return ("thread-race:records-per-call", f"call of thread {i}: {len(recs)} breaker records {[r[1:3] for r in recs]}")
+            return ("thread-race:records-per-call", f"call {i}: {len(recs)} breaker records {[r[1:3] for r in recs]}")
         fin = bundle.finals[i]
         ok = fin[0] == "return" or (fin[0] == "outcome" and fin[1].ok)
         if ok:
             if recs[0][1] != "br.success":
-                return ("thread-race:wrong-record", f"call of thread {i} succeeded but the breaker was told {recs[0][1:3]}")
+                return ("thread-race:wrong-record", f"call {i} succeeded but the breaker was told {recs[0][1:3]}")
+            continue
+        aborted = (fin[0] == "raise" and type(fin[1]).__name__ == "AbortRetryError") or (fin[0] == "outcome" and getattr(fin[1].stop_reason, "value", None) == "ABORTED")
+        if aborted:
+            if recs[0][1] != "br.cancel":
+                return ("thread-race:wrong-record", f"call {i} was aborted but the breaker was told {recs[0][1:3]}")
             continue
         want = last_failure_class(bundle, i)
         if recs[0][1] != "br.failure" or recs[0][2] != want:
-            return ("thread-race:wrong-record", f"call of thread {i} ended with its own failure of class {want} but the breaker was told {recs[0][1:3]}")
+            return ("thread-race:wrong-record", f"call {i} ended with its own failure of class {want} but the breaker was told {recs[0][1:3]}")
     return None
 
 
@@ -346,15 +547,22 @@ def judge_probe(bundle):
     """C07 across threads: between the admission of a half-open probe and the first report after it, no other call is admitted."""
     if bundle.breaker is None:
         return None
-    probe = None  # thread whose probe is in flight
+    probe = None  # call whose probe is in flight
     for e in bundle.log:
         if e[1] == "br.allow":
             if e[2] and probe is not None:
-                return ("thread-race:second-call-admitted-while-probe-in-flight", f"call of thread {e[0]} was admitted (state {e[3]}) while the probe of thread {probe}'s call was still in flight")
+                return ("thread-race:second-call-admitted-while-probe-in-flight", f"call {e[0]} was admitted (state {e[3]}) while the probe of call {probe} was still in flight")
             if e[2] and e[3] == "half_open":
                 probe = e[0]
         elif e[1] in ("br.success", "br.failure", "br.cancel"):
             probe = None
+    return None
+
+
+def judge_wedge(bundle):
+    """C08 across calls: once every call has ended nobody holds the probe slot; the breaker recovers (now and in the next outage)."""
+    if bundle.after:
+        return ("thread-race:breaker-wedged-after-overlapping-calls", bundle.after)
     return None
 
 
@@ -363,10 +571,10 @@ def judge_identity(bundle):
     spec = bundle.spec
     for i in range(len(spec["threads"])):
         if bundle.nops[i] > spec["max_attempts"]:
-            return ("thread-race:attempt-cap", f"call of thread {i}: {bundle.nops[i]} invocations, max_attempts={spec['max_attempts']}")
+            return ("thread-race:attempt-cap", f"call {i}: {bundle.nops[i]} invocations, max_attempts={spec['max_attempts']}")
         fin = bundle.finals[i]
         if fin is None:
-            return ("thread-race:no-delivery", f"call of thread {i} delivered nothing")
+            return ("thread-race:no-delivery", f"call {i} delivered nothing")
         objs = []
         if fin[0] == "return":
             objs = [fin[1]]
@@ -379,12 +587,88 @@ def judge_identity(bundle):
         else:
             o = fin[1]
             objs = [v for v in (o.value, o.last_exception, o.last_result) if v is not None]
+        aborted = (fin[0] == "raise" and type(fin[1]).__name__ == "AbortRetryError") or (fin[0] == "outcome" and getattr(fin[1].stop_reason, "value", None) == "ABORTED")
         for o in objs:
             t = getattr(o, "tid", None)
             if t is not None and t != i:
-                return ("thread-race:foreign-object", f"call of thread {i} delivered {o!r}, an object of thread {t}'s call")
+                return ("thread-race:foreign-object", f"call {i} delivered {o!r}, an object of call {t}")
+            if aborted:
+                continue  # an aborted run describes the failure before the abort (C11's business)
             if t is not None and getattr(o, "idx", None) != bundle.nops[i] - 1:
-                return ("thread-race:not-last-attempt", f"call of thread {i} delivered {o!r} but its last attempt was #{bundle.nops[i]}")
+                return ("thread-race:not-last-attempt", f"call {i} delivered {o!r} but its last attempt was #{bundle.nops[i]}")
+    return None
+
+
+def judge_escape(bundle):
+    """C11 per call: execute() returns an outcome, call() raises only what the call's own attempts produced (or RetryExhaustedError /
+    CircuitOpenError): an error of the library's own shared machinery never escapes because another call was running."""
+    from redress import AbortRetryError, CircuitOpenError
+
+    for i, fin in enumerate(bundle.finals):
+        if fin is None or fin[0] != "raise":
+            continue
+        x = fin[1]
+        if isinstance(x, (TExc, RetryExhaustedError, CircuitOpenError, AbortRetryError)):
+            continue
+        return ("thread-race:foreign-error-escaped", f"call {i} ({bundle.spec['threads'][i].get('entry', 'call')}) ended with {x!r}, which none of its attempts raised")
+    return None
+
+
+def judge_caps(bundle):
+    """C01 per call: retries granted after failures of class K (the call's own `retry` events) never exceed per_class_max_attempts[K]."""
+    lim = bundle.spec.get("per_class") or {}
+    by = per_thread(bundle)
+    for i in range(len(bundle.spec["threads"])):
+        per = {}
+        for e in by.get(i, []):
+            if e[1] == "event" and e[2] == "retry":
+                k = e[6].get("class")
+                per[k] = per.get(k, 0) + 1
+        for k, n in per.items():
+            if k in lim and n > lim[k]:
+                return ("thread-race:per-class-cap", f"call {i}: {n} retries granted after {k} failures, per_class_max_attempts[{k}]={lim[k]}")
+    return None
+
+
+def judge_delays(bundle):
+    """C05 per call: the delay of a retry is the value of the strategy registered for THAT failure's class (table "per-class")."""
+    if bundle.spec.get("strategy") != "per-class":
+        return None
+    by = per_thread(bundle)
+    for i in range(len(bundle.spec["threads"])):
+        for e in by.get(i, []):
+            if e[1] == "strategy" and len(e) > 4:
+                want = e[3] if e[3] in CLASS_DELAY else "default"
+                if e[4] != want:
+                    return ("thread-race:wrong-strategy-entry", f"call {i}: a {e[3]} failure was handed to the strategy registered for '{e[4]}'")
+            if e[1] == "event" and e[2] == "retry":
+                k = e[6].get("class")
+                want = CLASS_DELAY.get(k, DEFAULT_DELAY)
+                if e[4] != want:
+                    return ("thread-race:wrong-delay", f"call {i}: retry after a {k} failure reports sleep_s={e[4]}; the strategy registered for that class returns {want}")
+            if e[1] == "event" and e[2] == "no_strategy_configured":
+                return ("thread-race:wrong-strategy-entry", f"call {i}: no_strategy_configured although a default strategy is registered")
+    return None
+
+
+def judge_envelope(bundle):
+    """C02 per call, measured from THAT call's own start: no attempt begins once more than deadline_s has elapsed, no sleep is
+    requested for longer than the time then remaining."""
+    dl = bundle.spec.get("deadline_s")
+    if dl is None:
+        return None
+    for e in bundle.log:
+        i = e[0]
+        if i < 0 or bundle.starts[i] is None:
+            continue
+        if e[1] == "op" and e[2] > 1:
+            el = e[3] - bundle.starts[i]
+            if el > dl + 1e-6:
+                return ("overlap:attempt-after-deadline", f"call {i}: attempt {e[2]} began {el}s after the start of that call, deadline_s={dl}")
+        elif e[1] == "sleep":
+            el = e[3] - bundle.starts[i]
+            if e[2] > dl - el + 1e-6:
+                return ("overlap:sleep-exceeds-remaining", f"call {i}: sleep of {e[2]}s requested {el}s after the start of that call, deadline_s={dl} (remaining {dl - el})")
     return None
 
 
@@ -397,7 +681,8 @@ def describe_final(fin):
     return f"{fin[0]} {fin[1]!r}"[:160]
 
 
-JUDGES = {"events": judge_events, "tokens": judge_tokens, "breaker": judge_breaker, "identity": judge_identity, "probe": judge_probe}
+JUDGES = {"events": judge_events, "tokens": judge_tokens, "breaker": judge_breaker, "identity": judge_identity, "probe": judge_probe, "wedge": judge_wedge,
+          "escape": judge_escape, "caps": judge_caps, "delays": judge_delays, "envelope": judge_envelope}
 
 
 def explore(ctx, spec, judges, bound, limit, nrandom, rng, prop_key=""):
@@ -407,15 +692,17 @@ def explore(ctx, spec, judges, bound, limit, nrandom, rng, prop_key=""):
     n = 0
     mode = "dfs"
     rw = 0
+    tag = "overlap" if spec.get("mode") == "async" else "thread"
     while True:
         r = run_schedule(spec, prefix=prefix if mode == "dfs" else (), rng=None if mode == "dfs" else rng)
         s = r["sched"]
         n += 1
         key = tuple(x[1] for x in s.trace)
         seen.add(key)
-        ctx.cnt["thread_schedules_run"] += 1
-        ctx.cnt["thread_switch_points"] += len(s.trace)
+        ctx.cnt[tag + "_schedules_run"] += 1
+        ctx.cnt[tag + "_switch_points"] += len(s.trace)
         ctx.cnt["thread_lock_contention"] += s.contention
+        ctx.cnt["schedules_at_level:" + (spec.get("mode") or spec.get("level", "callbacks"))] += 1
         if not r["completed"] and not s.deadlock:
             ctx.inconclusive_because(f"scheduler watchdog fired for thread program {spec}")
             return None
@@ -429,15 +716,15 @@ def explore(ctx, spec, judges, bound, limit, nrandom, rng, prop_key=""):
         for jn in judges:
             bad = JUDGES[jn](b)
             if bad:
-                ctx.viol(bad[0], f"[threads] {bad[1]}; program {spec}; schedule {list(key)}", {"tspec": spec, "schedule": list(key), "judges": list(judges)})
+                ctx.viol(bad[0], f"[{'tasks' if tag == 'overlap' else 'threads'}] {bad[1]}; program {spec}; schedule {list(key)}", {"tspec": spec, "schedule": list(key), "judges": list(judges)})
                 return None
         if len(set(x[1] for x in s.trace)) > 1:
-            ctx.cnt["thread_schedules_with_switches"] += 1
+            ctx.cnt[tag + "_schedules_with_switches"] += 1
         if mode == "dfs":
             nxt = sched.next_prefix(s.trace, bound)
             if nxt is None or n >= limit:
                 if nxt is None:
-                    ctx.cnt["thread_programs_dfs_exhausted"] += 1
+                    ctx.cnt[tag + "_programs_dfs_exhausted"] += 1
                 mode = "random"
                 if nrandom <= 0:
                     break
@@ -447,33 +734,51 @@ def explore(ctx, spec, judges, bound, limit, nrandom, rng, prop_key=""):
             rw += 1
             if rw >= nrandom:
                 break
-    ctx.cnt["thread_programs"] += 1
+    ctx.cnt[tag + "_programs"] += 1
     for k_ in seen:
-        ctx.add_hash("thread_schedules", [spec, list(k_)])
+        ctx.add_hash(tag + "_schedules", [spec, list(k_)])
     return len(seen)
 
 
-def gen_spec(rng, *, budget=True, breaker=False, shared_policy=None):
+def gen_spec(rng, *, budget=True, breaker=False, shared_policy=None, level="callbacks", strategy=None, mode=None, deadline=False, long_ops=False, nested=False):
     n = rng.choice([2, 2, 3])
     mx = rng.randint(2, 3)
     sp = {"max_attempts": mx, "delay": rng.choice([0.0, 0.25, 1.0]), "threads": []}
+    if level != "callbacks":
+        sp["level"] = level
+    if mode:
+        sp["mode"] = mode
+    if strategy:
+        sp["strategy"] = strategy
     if budget:
         sp["budget"] = {"max": rng.randint(1, 2), "window": 10.0, "prefill": 0}
     if breaker:
         sp["breaker"] = {"threshold": rng.randint(1, 3), "window": 100.0, "recovery": 5.0, "init": rng.choice(["closed", "closed", "expired"])}
+    if deadline:
+        sp["deadline_s"] = rng.choice([1.0, 2.0, 3.0])
+        sp["delay"] = rng.choice([0.25, 0.5, 1.0])
     sp["shared_policy"] = rng.random() < 0.5 if shared_policy is None else shared_policy
     classes = ["TRANSIENT", "RATE_LIMIT", "SERVER_ERROR", "PERMANENT", "UNKNOWN"]
+    if strategy == "per-class":
+        sp["per_class"] = {"RATE_LIMIT": 1}
     for _ in range(n):
         outs = []
         for _a in range(mx):
             x = rng.random()
-            if x < 0.2:
+            if x < 0.06:
+                outs.append(["abort"])
+            elif x < 0.2:
                 outs.append(["ok"])
             elif x < 0.45:
                 outs.append(["res", rng.choice(classes)])
             else:
                 outs.append(["exc", rng.choice(classes)])
-        sp["threads"].append({"entry": rng.choice(["call", "execute"]), "outcomes": outs, "hooks": rng.random() < 0.6, "dur": rng.choice([0.0, 0.5])})
+        durs = [0.0, 0.5, 6.0] if long_ops else [0.0, 0.5]
+        th = {"entry": rng.choice(["call", "execute"]), "outcomes": outs, "hooks": rng.random() < 0.6, "dur": [rng.choice(durs) for _ in range(mx)]}
+        if nested and mode != "async" and sp["shared_policy"] and not budget and not breaker and rng.random() < 0.5:
+            # only without budget/breaker: their spies attribute operations to the outer call
+            th["nested"] = {"at": rng.randrange(mx), "fails": rng.random() < 0.5}
+        sp["threads"].append(th)
     return sp
 
 
@@ -483,7 +788,7 @@ def replay(payload):
     b = r["bundle"]
     for ev in b.log:
         print("   ", ev)
-    print("    finals:", [describe_final(f) for f in b.finals])
+    print("    finals:", [describe_final(f) for f in b.finals], "| continuation:", b.after or "breaker recovers / n.a.")
     bad = r["sched"].deadlock or bool(r["errors"])
     for jn in payload.get("judges", list(JUDGES)):
         v = JUDGES[jn](b)
@@ -510,37 +815,98 @@ FIXED = [
      "threads": [{"entry": "call", "outcomes": [["ok"]], "hooks": False}, {"entry": "call", "outcomes": [["ok"]], "hooks": False}, {"entry": "execute", "outcomes": [["exc", "TRANSIENT"]], "hooks": False}]},
     {"max_attempts": 2, "delay": 0.25, "breaker": {"threshold": 2, "window": 100.0, "recovery": 5.0, "init": "expired"}, "shared_policy": False,
      "threads": [{"entry": "execute", "outcomes": [["exc", "TRANSIENT"], ["ok"]], "hooks": True}, {"entry": "call", "outcomes": [["ok"]], "hooks": True}]},
+    # a call admitted while the circuit is closed is still running when another call has tripped it and the timeout has passed
+    {"max_attempts": 1, "delay": 0.0, "breaker": {"threshold": 1, "window": 100.0, "recovery": 5.0, "init": "closed"}, "shared_policy": True,
+     "threads": [{"entry": "call", "outcomes": [["ok"]], "hooks": False, "dur": [6.0]}, {"entry": "call", "outcomes": [["exc", "TRANSIENT"]], "hooks": False}]},
+    {"max_attempts": 1, "delay": 0.0, "breaker": {"threshold": 1, "window": 100.0, "recovery": 5.0, "init": "closed"}, "shared_policy": True,
+     "threads": [{"entry": "execute", "outcomes": [["exc", "SERVER_ERROR"]], "hooks": False, "dur": [6.0]}, {"entry": "execute", "outcomes": [["exc", "TRANSIENT"]], "hooks": False}]},
+]
+
+FIXED_COMPONENTS = [
+    # a reader parked inside the budget's critical section while a failing call asks for its token
+    {"level": "components", "max_attempts": 2, "delay": 0.25, "budget": {"max": 3, "window": 10.0, "prefill": 0}, "shared_policy": False,
+     "threads": [{"entry": "execute", "outcomes": [["exc", "TRANSIENT"], ["ok"]], "hooks": False}, {"entry": "call", "outcomes": [["exc", "TRANSIENT"], ["ok"]], "hooks": False}]},
+    # a probe ending by a cancel-type exit while another caller is inside allow()
+    {"level": "components", "max_attempts": 2, "delay": 0.25, "breaker": {"threshold": 1, "window": 100.0, "recovery": 5.0, "init": "expired"}, "shared_policy": True,
+     "threads": [{"entry": "call", "outcomes": [["exc", "TRANSIENT"], ["abort"]], "hooks": False}, {"entry": "execute", "outcomes": [["ok"]], "hooks": False}]},
+    {"level": "components", "max_attempts": 1, "delay": 0.0, "breaker": {"threshold": 1, "window": 100.0, "recovery": 5.0, "init": "expired"}, "shared_policy": True,
+     "threads": [{"entry": "execute", "outcomes": [["abort"]], "hooks": False}, {"entry": "call", "outcomes": [["ok"]], "hooks": False}, {"entry": "call", "outcomes": [["ok"]], "hooks": False}]},
+    # one adaptive() strategy object shared by every call: a delay computation racing an outcome record
+    {"level": "components", "strategy": "adaptive", "max_attempts": 3, "delay": 0.25, "shared_policy": True,
+     "threads": [{"entry": "execute", "outcomes": [["exc", "TRANSIENT"], ["exc", "TRANSIENT"], ["ok"]], "hooks": False}, {"entry": "execute", "outcomes": [["exc", "SERVER_ERROR"], ["ok"]], "hooks": False}]},
+]
+
+FIXED_FIRST_USE = [
+    # the very first failures a fresh policy object ever handles arrive from two threads at once (anything built lazily on first use)
+    {"level": "lines", "strategy": "per-class", "per_class": {"RATE_LIMIT": 1}, "max_attempts": 4, "shared_policy": True,
+     "threads": [{"entry": "call", "outcomes": [["exc", "TRANSIENT"], ["ok"]], "hooks": False}, {"entry": "call", "outcomes": [["exc", "RATE_LIMIT"], ["exc", "RATE_LIMIT"], ["exc", "RATE_LIMIT"], ["ok"]], "hooks": False}]},
+    {"level": "lines", "strategy": "per-class", "per_class": {"RATE_LIMIT": 1}, "max_attempts": 3, "shared_policy": True,
+     "threads": [{"entry": "execute", "outcomes": [["res", "SERVER_ERROR"], ["ok"]], "hooks": False}, {"entry": "execute", "outcomes": [["res", "RATE_LIMIT"], ["res", "RATE_LIMIT"], ["ok"]], "hooks": False}]},
+]
+
+FIXED_ASYNC = [
+    # two tasks on ONE AsyncRetry: the second call starts while the first is in its backoff; each has its own deadline
+    {"mode": "async", "deadline_s": 1.0, "max_attempts": 4, "delay": 0.5, "shared_policy": True,
+     "threads": [{"entry": "call", "outcomes": [["exc", "TRANSIENT"]], "hooks": False, "dur": [0.25]}, {"entry": "call", "outcomes": [["exc", "TRANSIENT"]], "hooks": False, "dur": [0.25]}]},
+    {"mode": "async", "deadline_s": 2.0, "max_attempts": 5, "delay": 0.5, "shared_policy": True,
+     "threads": [{"entry": "execute", "outcomes": [["res", "SERVER_ERROR"]], "hooks": True, "dur": [0.5]}, {"entry": "call", "outcomes": [["exc", "TRANSIENT"], ["ok"]], "hooks": False, "dur": [1.0]},
+                 {"entry": "execute", "outcomes": [["exc", "TRANSIENT"]], "hooks": False, "dur": [0.25]}]},
 ]
 
 
-def thread_slice(ctx, tier, rng, judges, *, budget=True, breaker=False, nprog=None):
-    """The policy-level thread workload of one check: the fixed programs that apply + random ones."""
+def thread_slice(ctx, tier, rng, judges, *, budget=True, breaker=False, nprog=None, components=False, first_use=False, tasks=False, long_ops=False):
+    """The overlapping-calls workload of one check: the fixed programs that apply + random ones."""
     quick = tier == "quick"
     nprog = nprog if nprog is not None else ((8 if quick else 160) // max(ctx.nshards, 1) or 1)
     bound = 2
     limit = 150 if quick else 3000
     nrandom = 30 if quick else 300
-    progs = [sp for k, sp in enumerate(FIXED) if k % ctx.nshards == ctx.shard and (("budget" in sp and budget) or ("breaker" in sp and breaker))]
+    progs = [(sp, bound, limit, nrandom) for k, sp in enumerate(FIXED) if k % ctx.nshards == ctx.shard and (("budget" in sp and budget) or ("breaker" in sp and breaker))]
     for k in range(nprog):
-        progs.append(gen_spec(rng, budget=budget if not breaker else (k % 2 == 0), breaker=breaker))
-    for sp in progs:
-        n = explore(ctx, sp, judges, bound, limit, nrandom, rng)
+        progs.append((gen_spec(rng, budget=budget if not breaker else (k % 2 == 0), breaker=breaker, long_ops=long_ops), bound, limit, nrandom))
+    if components:
+        for k, sp in enumerate(FIXED_COMPONENTS):
+            if k % ctx.nshards == ctx.shard and (("budget" in sp and budget) or ("breaker" in sp and breaker) or sp.get("strategy") == "adaptive"):
+                progs.append((sp, bound, 400 if quick else 6000, 40 if quick else 400))
+        for k in range(max(nprog // 4, 1)):
+            progs.append((gen_spec(rng, budget=budget, breaker=breaker and k % 2 == 0, level="components", strategy="adaptive" if k % 3 == 2 else None), bound, 200 if quick else 3000, 30 if quick else 300))
+    if first_use:
+        for k, sp in enumerate(FIXED_FIRST_USE):
+            if k % ctx.nshards == ctx.shard:
+                progs.append((sp, 1, 1500 if quick else 6000, 0))
+    if tasks:
+        for k, sp in enumerate(FIXED_ASYNC):
+            if k % ctx.nshards == ctx.shard:
+                progs.append((sp, 3, 300 if quick else 5000, 60 if quick else 600))
+        for k in range(max(nprog // 2, 1)):
+            progs.append((gen_spec(rng, budget=budget and k % 2 == 0, breaker=False, mode="async", deadline=True, shared_policy=True), 3, 200 if quick else 3000, 40 if quick else 400))
+    for sp, bd, lim, nr in progs:
+        n = explore(ctx, sp, judges, bd, lim, nr, rng)
         if n is None:
             return
         if len(ctx.samples) < ctx.MAX_SAMPLES and ctx.shard == 0 and not ctx.cnt["thread_sampled"]:
             ctx.cnt["thread_sampled"] += 1
-            ctx.sample({"thread_program": sp, "distinct_schedules_explored": n, "judges": list(judges)})
+            ctx.sample({"overlapping_calls_program": sp, "distinct_schedules_explored": n, "judges": list(judges)})
+    sched.uninstall_monitor()
 
 
-def floors(ctx, quick_min=300):
-    return {
+def floors(ctx, quick_min=300, components=False, first_use=False, tasks=False):
+    f = {
         "thread_schedules_run": (ctx.cnt["thread_schedules_run"], quick_min),
         "thread_schedules_with_switches": (ctx.cnt["thread_schedules_with_switches"], quick_min // 2),
         "thread_programs": (ctx.cnt["thread_programs"], 4),
     }
+    if components:
+        f["schedules_at_level:components"] = (ctx.cnt["schedules_at_level:components"], 100)
+    if first_use:
+        f["schedules_at_level:lines"] = (ctx.cnt["schedules_at_level:lines"], 100)
+    if tasks:
+        f["overlap_schedules_run"] = (ctx.cnt["overlap_schedules_run"], 100)
+    return f
 
 
 RULE = (
-    " + whole sync calls racing in 2-3 threads on a shared Budget / CircuitBreaker / policy object (pre-emption at every lock operation of the shared components and at every "
-    "callback; DFS with pre-emption bound 2, then random walks): per-call oracles must hold in every schedule"
+    " + whole calls overlapping on a shared Budget / CircuitBreaker / strategy / policy object: sync calls racing in 2-3 threads (pre-emption at every lock operation of the shared components "
+    "and at every callback; where stated also at every source line inside the components, or - on a fresh policy object, pre-emption bound 1 - at every source line of the package) and async calls "
+    "interleaved at every suspension point; DFS with a pre-emption bound, then random walks: per-call oracles must hold in every schedule"
 )
